@@ -35,11 +35,11 @@ Section L.
   Lemma oklen_cond G p r l : cond_results (p, G) r = Some l -> oklen (length G) l.
   Proof. destruct r as [e|[|]]; simpl; intro H; inversion H; subst; repeat constructor. Qed.
 
-  Lemma oklen_l1 stepf G mn mx gr : forall lf k q l, l1_results stepf G mn mx gr lf k q = Some l -> oklen (length G) l.
+  Lemma oklen_l1 stepf chk G mn mx gr : forall lf k q l, l1_results stepf chk G mn mx gr lf k q = Some l -> oklen (length G) l.
   Proof.
     induction lf as [|lf IH]; intros k q l H; [discriminate|]. cbn [l1_results] in H.
     destruct (if k <? max_val mx then stepf q else Some None) as [[q'|]|]; [| |discriminate].
-    - destruct (l1_results stepf G mn mx gr lf (k + 1) q') as [it|] eqn:Ei; [|discriminate].
+    - destruct (chk q q'); [|discriminate]. destruct (l1_results stepf chk G mn mx gr lf (k + 1) q') as [it|] eqn:Ei; [|discriminate].
       apply IH in Ei. inversion H; subst. destruct (mn <=? k); [|exact Ei].
       destruct gr; [apply Forall_app; split; auto|constructor; auto]; repeat constructor.
     - inversion H; subst. destruct (mn <=? k); repeat constructor.
